@@ -94,7 +94,7 @@ func (m *Machine) scalarSort(t types.Type) sym.Sort {
 func (m *Machine) EmptyText() Text {
 	z := m.IntC(0)
 	e := ""
-	return Text{z, z, z, z, z, &e}
+	return Text{W: z, N: z, NL: z, CUU: z, ID: z, Lit: &e}
 }
 
 // ZeroValue of type t as a register/cell value (composites for struct/array).
